@@ -599,30 +599,24 @@ class Pipeline:
         return v
 
     def snap_all(self, st, args, depth, k):
-        """snapshot arguments; iterator arguments are drained (their closures are real code)"""
+        """snapshot arguments; iterator arguments are drained (their closures are real code); fork-safe"""
         I = self.I
-        out = []
 
-        def step(i, st):
+        def step(i, st, out):
             if i >= len(args):
-                return k(st, out)
+                return k(st, list(out))
             a = args[i]
             if isinstance(a, IterVal):
-                acc = []
+                def each(s2, x, acc, kk):
+                    kk(s2, acc + (self.snap(s2, x),))
 
-                def each(s2, x, kk):
-                    acc.append(self.snap(s2, x))
-                    kk(s2)
-
-                def done(s2, p):
+                def done(s2, p, acc):
                     if p is PANIC:
                         raise Inconclusive('panic while draining a sink argument')
-                    out.append(VecVal(acc))
-                    step(i + 1, s2)
+                    step(i + 1, s2, out + (VecVal(acc),))
                 return drain(I, st, a, depth, each, done)
-            out.append(self.snap(st, a))
-            step(i + 1, st)
-        step(0, st)
+            step(i + 1, st, out + (self.snap(st, a),))
+        step(0, st, ())
 
     # ------------------------------------------------------------------ drivers
     def run_parse(self, spec, config=None, st=None, extra_pc=()):
